@@ -25,6 +25,7 @@ import (
 	"google.golang.org/grpc"
 	"google.golang.org/grpc/credentials"
 	"google.golang.org/grpc/credentials/insecure"
+	"google.golang.org/grpc/metadata"
 	"google.golang.org/protobuf/proto"
 	"google.golang.org/protobuf/types/known/emptypb"
 	"pgregory.net/rapid"
@@ -44,6 +45,8 @@ type Cred struct {
 	// presented chain (after the leaf that holds the key): the handshake ignores it, and so must
 	// the identity extraction.
 	ExtraCN string `json:"extra_cn,omitempty"`
+	// Claim, if set, is a client name the caller merely asserts in request metadata; nothing in the statement lets such an assertion count.
+	Claim string `json:"claim,omitempty"`
 }
 
 // Case is a set of calls, each on a fresh connection.
@@ -159,8 +162,9 @@ func (d *daemon) accounts() []*vkit.AccountInfo {
 }
 
 func (d *daemon) dial(c Cred) (*grpc.ClientConn, error) {
+	var extra []grpc.DialOption // (an :authority override is rejected by grpc-go when it differs from the TLS server name)
 	if c.Transport == "plaintext" {
-		return grpc.NewClient(d.addr, grpc.WithTransportCredentials(insecure.NewCredentials()))
+		return grpc.NewClient(d.addr, append(extra, grpc.WithTransportCredentials(insecure.NewCredentials()))...)
 	}
 	pool := x509.NewCertPool()
 	pool.AppendCertsFromPEM(d.ca.CertPEM)
@@ -210,7 +214,7 @@ func (d *daemon) dial(c Cred) (*grpc.ClientConn, error) {
 		cfg.GetClientCertificate = func(*tls.CertificateRequestInfo) (*tls.Certificate, error) { return &pair, nil }
 	}
 
-	return grpc.NewClient(d.addr, grpc.WithTransportCredentials(credentials.NewTLS(cfg)))
+	return grpc.NewClient(d.addr, append(extra, grpc.WithTransportCredentials(credentials.NewTLS(cfg)))...)
 }
 
 func root(a uint64, s byte) []byte {
@@ -382,8 +386,8 @@ func class(c Cred) string {
 }
 
 type outcome struct {
-	mustRefuse, mustRefusePermittedCN, eitherServed, acceptedServed, cnSanDiffer, served, extraServed int
-	trace                                                                                             []string
+	mustRefuse, mustRefusePermittedCN, eitherServed, acceptedServed, cnSanDiffer, served, extraServed, claimServed int
+	trace                                                                                                          []string
 }
 
 func run(c *Case) (*outcome, *vkit.Violation, error) {
@@ -411,6 +415,9 @@ func run(c *Case) (*outcome, *vkit.Violation, error) {
 			return o, nil, err
 		}
 		ctx, cancel := context.WithTimeout(context.Background(), 5*time.Second)
+		if cl := call.Cred.Claim; cl != "" {
+			ctx = metadata.AppendToOutgoingContext(ctx, "x-client-name", cl, "client-name", cl, "client", cl, "x-forwarded-client-cert", "Subject=\"CN="+cl+"\"", "x-forwarded-for", "127.0.0.1", "authorization", "Bearer "+cl)
+		}
 		rpcErr := conn.Invoke(ctx, call.Method, req, resp)
 		cancel()
 		conn.Close()
@@ -458,6 +465,9 @@ func run(c *Case) (*outcome, *vkit.Violation, error) {
 		if call.Cred.ExtraCN != "" && call.Cred.ExtraCN != call.Cred.CN {
 			o.extraServed++
 		}
+		if call.Cred.Claim != "" && call.Cred.Claim != call.Cred.CN {
+			o.claimServed++
+		}
 		sigs, listed, other := valuable(resp)
 		cn := call.Cred.CN
 		if op == "dkg" {
@@ -495,6 +505,9 @@ func genCred(t *rapid.T) Cred {
 		EKU:       rapid.SampledFrom([]string{"client", "client", "client", "server-only", "none"}).Draw(t, "eku"),
 		CN:        rapid.SampledFrom([]string{"alice", "alice", "alice", "bob", "carol", vkit.NodeName(1), "mallory", "", "Alice", "alice ", "ALICE", strings.ToUpper(vkit.NodeName(1)), vkit.NodeName(1) + "0"}).Draw(t, "cn"),
 		SAN:       rapid.SampledFrom([]string{"", "", "alice", "bob", vkit.NodeName(1), "mallory"}).Draw(t, "san"),
+	}
+	if rapid.IntRange(0, 3).Draw(t, "claim") == 0 {
+		c.Claim = rapid.SampledFrom([]string{"alice", "bob", vkit.NodeName(1)}).Draw(t, "claimed")
 	}
 	if c.Transport == "tls-cert" && rapid.IntRange(0, 3).Draw(t, "extra") == 0 {
 		c.ExtraCN = rapid.SampledFrom([]string{"alice", "bob", vkit.NodeName(1)}).Draw(t, "extra_cn")
@@ -544,6 +557,7 @@ func TestC19(t *testing.T) {
 		vkit.S.ClassN("either-way-credential-served", o.eitherServed)
 		vkit.S.ClassN("served-calls-with-cn-and-san-differing", o.cnSanDiffer)
 		vkit.S.ClassN("served-calls-with-an-extra-certificate-naming-someone-else", o.extraServed)
+		vkit.S.ClassN("served-calls-claiming-another-name-in-metadata", o.claimServed)
 		for _, call := range c.Calls {
 			vkit.S.Class("method:" + strings.TrimPrefix(call.Method, "/v1."))
 			vkit.S.Class("cred:" + call.Cred.Transport + "/" + call.Cred.Issuer)
